@@ -242,6 +242,8 @@ def both_twodigit(**over):
 
 
 SHIFTS = {(12, 12, 12), (300, 0, 0), (0, 300, 0), (0, 0, 300), (120, 120, 120)}
+# split embedding: the dummies come after the first built student (active students 1, 257, 258 / 1, 1002, ...)
+SPLITS = {(-255, 0, 0), (-1000, 0, 0), (-10, 0, 0)}
 
 
 def shifted(core=None, **over):
